@@ -332,7 +332,8 @@ def _rest(facts, rep, reg, proc, du, cfg):
             continue
         for bb, t in b.calls():
             c = t["callee"]
-            if c.get("name") in ("iter", "into_iter", "keys", "values") and "BTreeMap" in ((c.get("path") or "") + (c.get("impl_self") or "")):
+            if c.get("name") in ("iter", "into_iter", "keys", "values") and "BTreeMap" in (
+                    (c.get("path") or "") + (c.get("impl_self") or "") + " ".join(c.get("generic_args") or []) + ((c.get("arg0_ty") or {}).get("s") or "")):
                 printers.append((b, t))
     ok = len(printers) == 1 and not any(t["callee"].get("name") in ("rev",) for _, t in printers[0][0].calls())
     rep.oblige(ok, ("printer",))
